@@ -197,11 +197,20 @@ impl Vtx {
         let author = strings.pop().unwrap();
         let title = strings.pop().unwrap();
 
-        let mut transposed_frame_data = vec![0u8; decompressed_frames_size as usize];
+        // Decode in chunks: the size comes from an untrusted 32-bit header field, so memory is
+        // claimed only as far as the compressed stream really delivers data
+        let mut transposed_frame_data = Vec::new();
         let mut decoder = Lh5Decoder::new(reader);
-        decoder
-            .fill_buffer(&mut transposed_frame_data)
-            .map_err(|_| VtxError::DecompressFailure)?;
+        let mut remaining = decompressed_frames_size as usize;
+        let mut chunk = [0u8; 4096];
+        while remaining > 0 {
+            let len = remaining.min(chunk.len());
+            decoder
+                .fill_buffer(&mut chunk[..len])
+                .map_err(|_| VtxError::DecompressFailure)?;
+            transposed_frame_data.extend_from_slice(&chunk[..len]);
+            remaining -= len;
+        }
 
         // VTX originally stores pre-transposed data, therefore we need to tarnspose it
         let frames_count = transposed_frame_data.len() / AY_REGISTER_COUNT;
